@@ -1456,6 +1456,9 @@ def concrete_int(v, what):
     raise Unsupported("%s %r" % (what, v))
 
 
+_NUMERIC_TEXT = re.compile(r"^[ \t\n\r\f]*[+-]?(\d+\.?\d*|\.\d+)([eE][+-]?\d+)?[ \t\n\r\f]*$", re.ASCII)
+
+
 def coerce(v, coldef):
     """column affinity (https://sqlite.org/datatype3.html): INTEGER / REAL / NUMERIC columns turn text
     that looks like a number into a number; numbers stay numbers everywhere except in TEXT columns,
@@ -1472,10 +1475,11 @@ def coerce(v, coldef):
     else:
         aff = "NUMERIC"
     if aff in ("INTEGER", "REAL", "NUMERIC") and isinstance(v, str) and type(v) is str:
-        try:
-            f = float(v)
-        except ValueError:
+        if not _NUMERIC_TEXT.match(v):
             return v
+        f = float(v)
+        if f != f or f in (float("inf"), float("-inf")):
+            return f
         if f == int(f) and abs(f) < 2**63 and not any(c in v for c in "eE") or (f == int(f) and aff != "REAL"):
             return int(f) if aff != "REAL" else f
         return f
